@@ -40,14 +40,6 @@ SPECS = [
       "batch_add with 2 live schedule points equals the textbook affine group law on a second toy curve",
       ["curves/src/msm.rs::batch_add"], "every point of y^2 = x^3 + 3 over F_31 (43 points)", "batch_add:group-law:p31", tiers=("thorough",),
       est=60, timeout=900),
-] + [
-    H(f"c12::schedule_p13_ops{k}", f"C12.K.schedule.p13.ops{k}",
-      f"Schedule driven as msm_best drives it (contains / add / execute) for {k} points into 2 buckets: an empty bucket takes the point, a non-empty one gets a pending entry, "
-      "after the flush bucket + diverted points = sum of the points sent to it",
-      ["curves/src/msm.rs::Schedule::add", "curves/src/msm.rs::Schedule::execute", "curves/src/msm.rs::Schedule::contains", "curves/src/msm.rs::BucketAffine::assign",
-       "curves/src/msm.rs::batch_add"], f"every point of the toy curve over F_13, 2 bases, 2 buckets, {k} operations, all signs/indices", f"Schedule:group-law:ops{k}",
-      tiers=("quick", "thorough") if k < 3 else ("thorough",), est=40, timeout={"quick": 300, "thorough": 1200})
-    for k in (2, 3)
 ]
 
 
